@@ -23,6 +23,110 @@ async fn run(name: &str) -> Result<(), String> {
             let _ = timeout(Duration::from_secs(5), task).await;
             r.map_err(|_| "the ticket of a control queued behind delete() was still unresolved 5 s later (the job task had ended without running it)".to_string())
         }
+        // C04 / C09 / C10 (BOUNDED: 24 seeded settled sequences of 12 controls against a reference model, 24 seeded bursts of 14 controls over three
+        // child behaviours; real processes): at most one process of the job exists at any sampled moment; after each settled control the job is
+        // running / not running and has spawned as many processes as the documented semantics say; normal controls of a burst run in send order, once
+        "control_sequences_c04" | "control_sequences_c09" | "control_sequences_c10" => {
+            use std::sync::Mutex;
+            use std::sync::atomic::AtomicBool;
+            use watchexec_supervisor::job::CommandState;
+            let (c04, c09, c10) = (name.ends_with("c04"), name.ends_with("c09"), name.ends_with("c10"));
+            let dir = std::env::temp_dir().join(format!("vx-replay-sup-{}-{}", name, std::process::id()));
+            let _ = std::fs::remove_dir_all(&dir); std::fs::create_dir_all(&dir).unwrap();
+            fn pids(log: &std::path::Path) -> Vec<i32> { std::fs::read_to_string(log).unwrap_or_default().lines().filter_map(|l| l.trim().parse().ok()).collect() }
+            fn exists(pid: i32) -> bool { std::path::Path::new(&format!("/proc/{pid}")).exists() }
+            let names = ["start", "stop", "restart", "try_restart", "stop_with_signal", "restart_with_signal", "try_restart_with_signal", "signal"];
+            let send = |job: &watchexec_supervisor::job::Job, c: u64, grace: Duration| match c {
+                0 => job.start(), 1 => job.stop(), 2 => job.restart(), 3 => job.try_restart(),
+                4 => job.stop_with_signal(Signal::Terminate, grace), 5 => job.restart_with_signal(Signal::Terminate, grace),
+                6 => job.try_restart_with_signal(Signal::Terminate, grace), _ => job.signal(Signal::Custom(28)),
+            };
+            // the sampler: how many processes that ever announced themselves for this job exist right now (zombies included: not yet reaped)
+            let worst = Arc::new(Mutex::new((0usize, String::new())));
+            let current_log: Arc<Mutex<Option<(std::path::PathBuf, String)>>> = Arc::new(Mutex::new(None));
+            let stop_sampler = Arc::new(AtomicBool::new(false));
+            let (w2, l2, s2) = (worst.clone(), current_log.clone(), stop_sampler.clone());
+            let sampler = std::thread::spawn(move || { while !s2.load(Ordering::SeqCst) {
+                if let Some((log, what)) = l2.lock().unwrap().clone() { let live: Vec<i32> = pids(&log).into_iter().filter(|p| exists(*p)).collect();
+                    let mut w = w2.lock().unwrap(); if live.len() > w.0 { *w = (live.len(), format!("{what}: processes {live:?} of one job exist at the same moment")); } }
+                std::thread::sleep(Duration::from_millis(1)); } });
+            let mut failure: Option<String> = None;
+            // --- settled sequences against the reference model (child: lives long, dies of SIGTERM) ---
+            if c09 || c04 { 'seeds: for seed in 1..=24u64 {
+                let log = dir.join(format!("settled{seed}.pids"));
+                let mut rng = seed.wrapping_mul(0x9E37_79B9_7F4A_7C15) | 1;
+                let mut next = || { rng ^= rng << 13; rng ^= rng >> 7; rng ^= rng << 17; rng };
+                let (job, task) = start_job(sh(&format!("echo $$ >> {}; exec sleep 600", log.display())));
+                *current_log.lock().unwrap() = Some((log.clone(), format!("settled sequence {seed}")));
+                {   // C04 at the moment of each spawn: every process this job announced before must be gone (reaped) when the next one is spawned
+                    let (hl, hw, hwhat) = (log.clone(), worst.clone(), format!("settled sequence {seed}"));
+                    job.set_spawn_hook(move |_, _| { let live: Vec<i32> = pids(&hl).into_iter().filter(|p| exists(*p)).collect();
+                        if !live.is_empty() { let mut w = hw.lock().unwrap(); if w.0 < 2 { *w = (2, format!("{hwhat}: a new process is being spawned while {live:?}, spawned earlier for the same job, is still in the process table")); } } });
+                }
+                let (mut running, mut spawns) = (false, 0usize);
+                let mut hist: Vec<&str> = vec![];
+                for _ in 0..12 {
+                    let c = next() % 8; hist.push(names[c as usize]);
+                    match c { 0 => { if !running { spawns += 1; running = true; } } 1 | 4 => { running = false; } 2 | 5 => { spawns += 1; running = true; } 3 | 6 => { if running { spawns += 1; } } _ => {} }
+                    let t_c = std::time::Instant::now();
+                    let r_c = timeout(Duration::from_secs(15), send(&job, c, Duration::from_secs(8))).await;
+                    if std::env::var("VX_DEBUG").is_ok() && t_c.elapsed() > Duration::from_millis(500) { eprintln!("settled {seed} {hist:?}: last control took {:?}", t_c.elapsed()); }
+                    if r_c.is_err() { failure = Some(format!("settled sequence {seed} {hist:?}: the ticket of the last control was unresolved after 15 s")); break 'seeds; }
+                    if !c09 { continue; }
+                    // the ticket has resolved: the job must now be in the documented state (poll a little: the child announces itself asynchronously)
+                    let mut ok = false; let mut seen = (false, 0usize);
+                    for _ in 0..300 {
+                        let flag = Arc::new(AtomicBool::new(false)); let f2 = flag.clone();
+                        if timeout(Duration::from_secs(10), job.run(move |ctx| { f2.store(matches!(ctx.current, CommandState::Running { .. }), Ordering::SeqCst); })).await.is_err() { failure = Some(format!("settled sequence {seed} {hist:?}: an observer control did not run within 10 s")); break 'seeds; }
+                        seen = (flag.load(Ordering::SeqCst), pids(&log).len());
+                        if seen.1 > spawns { break; }
+                        if seen == (running, spawns) { ok = true; break; }
+                        tokio::time::sleep(Duration::from_millis(10)).await;
+                    }
+                    if !ok { failure = Some(format!("settled sequence {seed}: after {hist:?} (each awaited) the job is {} and has spawned {} process(es); the documented semantics give {} and {}", if seen.0 { "running" } else { "not running" }, seen.1, if running { "running" } else { "not running" }, spawns)); break 'seeds; }
+                }
+                let _ = timeout(Duration::from_secs(10), job.delete_now()).await; let _ = timeout(Duration::from_secs(10), task).await;
+                for p in pids(&log) { if exists(p) { unsafe { libc_kill(p) } } }
+            } }
+            // --- bursts (nothing awaited until the end), three child behaviours ---
+            if failure.is_none() && (c04 || c10) { 'bursts: for seed in 1..=24u64 {
+                let log = dir.join(format!("burst{seed}.pids"));
+                let mut rng = seed.wrapping_mul(0xD6E8_FEB8_6659_FD93) | 1;
+                let mut next = || { rng ^= rng << 13; rng ^= rng >> 7; rng ^= rng << 17; rng };
+                let script = match seed % 3 { 0 => format!("echo $$ >> {}; exec sleep 600", log.display()), 1 => format!("echo $$ >> {}; exec sleep 0.05", log.display()), _ => format!("trap '' TERM; echo $$ >> {}; exec sleep 600", log.display()) };
+                let t_burst = std::time::Instant::now();
+                let (job, task) = start_job(sh(&script));
+                *current_log.lock().unwrap() = Some((log.clone(), format!("burst {seed} ({})", ["long-lived child", "child exits after 50 ms", "child ignores SIGTERM"][(seed % 3) as usize])));
+                {   // C04 at the moment of each spawn: every process this job announced before must be gone (reaped) when the next one is spawned
+                    let (hl, hw, hwhat) = (log.clone(), worst.clone(), format!("burst {seed}"));
+                    job.set_spawn_hook(move |_, _| { let live: Vec<i32> = pids(&hl).into_iter().filter(|p| exists(*p)).collect();
+                        if !live.is_empty() { let mut w = hw.lock().unwrap(); if w.0 < 2 { *w = (2, format!("{hwhat}: a new process is being spawned while {live:?}, spawned earlier for the same job, is still in the process table")); } } });
+                }
+                let order: Arc<Mutex<Vec<usize>>> = Arc::new(Mutex::new(vec![]));
+                let mut markers = 0usize; let mut hist: Vec<&str> = vec![];
+                for _ in 0..14 {
+                    let c = next() % 8; hist.push(names[c as usize]);
+                    let _ = send(&job, c, Duration::from_millis(60));
+                    let (o2, k) = (order.clone(), markers); markers += 1;
+                    let _ = job.run(move |_| { o2.lock().unwrap().push(k); });
+                    match next() % 4 { 0 => tokio::time::sleep(Duration::from_millis(20)).await, 1 => tokio::time::sleep(Duration::from_millis(70)).await, _ => {} }
+                }
+                let (o2, k) = (order.clone(), markers);
+                if timeout(Duration::from_secs(30), job.run(move |_| { o2.lock().unwrap().push(k); })).await.is_err() { failure = Some(format!("burst {seed} {hist:?}: the last control had not run 30 s after it was sent")); break 'bursts; }
+                let got = order.lock().unwrap().clone();
+                if c10 && got != (0..=markers).collect::<Vec<_>>() { failure = Some(format!("burst {seed} {hist:?}: the marker controls sent in order 0..={markers} (all normal priority, interleaved with the controls above) ran as {got:?}")); break 'bursts; }
+                let _ = timeout(Duration::from_secs(10), job.delete_now()).await; let _ = timeout(Duration::from_secs(10), task).await;
+                tokio::time::sleep(Duration::from_millis(20)).await;
+                for p in pids(&log) { if exists(p) { unsafe { libc_kill(p) } } }
+                if std::env::var("VX_DEBUG").is_ok() { eprintln!("burst {seed} {hist:?}: {:?}", t_burst.elapsed()); }
+            } }
+            stop_sampler.store(true, Ordering::SeqCst); let _ = sampler.join();
+            let _ = std::fs::remove_dir_all(&dir);
+            if let Some(f) = failure { return Err(f); }
+            let w = worst.lock().unwrap().clone();
+            if c04 && w.0 > 1 { return Err(w.1); }
+            Ok(())
+        }
         // C08: after a graceful stop + delete of a GROUPED command, no member of its process group is left running
         "grouped_graceful_stop_leaves_no_member" => {
             let dir = std::env::temp_dir().join(format!("vx-replay-sup-{}", std::process::id()));
